@@ -103,6 +103,12 @@ func execute(sl *slot, val *valueSpec, src string) (out outcome) {
 		return outcome{Kind: "parse", Msg: err.Error()}
 	}
 	e := newEnv(val)
+	// the Go-call hop counts its invocations: an operand that arrives through
+	// gid(...) is produced by ONE call per written occurrence, as an operand that
+	// sits in a variable is read once ("behaves identically in every ... position")
+	gidCalls := 0
+	e.DefineValue("gid", reflect.ValueOf(func(x interface{}) interface{} { gidCalls++; return x }))
+	written := strings.Count(src, "gid(")
 	ctx := stepctx.Fuel(fuel)
 	sl.start.Store(time.Now().UnixNano())
 	sl.ctx.Store(ctx)
@@ -125,6 +131,9 @@ func execute(sl *slot, val *valueSpec, src string) (out outcome) {
 	t := "<nil>"
 	if res != nil {
 		t = reflect.TypeOf(res).String()
+	}
+	if gidCalls > written {
+		return outcome{Kind: "ok-but-operand-produced-again", Type: t, Val: render(res), Msg: fmt.Sprintf("gid was called %d times, it is written %d times", gidCalls, written)}
 	}
 	return outcome{Kind: "ok", Type: t, Val: render(res)}
 }
